@@ -29,10 +29,10 @@ def DoneLayer (l : Layer) : Prop := ∀ r res r', l r = some (res, r') → res.d
 theorem base_done : DoneLayer base := by
   intro r res r' h
   unfold base at h
+  simp only at h
   split at h
   · simp only [Option.some.injEq, Prod.mk.injEq] at h; obtain ⟨rfl, _⟩ := h; rfl
-  · simp only at h
-    split at h
+  · split at h
     · split at h
       · simp at h
       · simp only [Option.some.injEq, Prod.mk.injEq] at h; obtain ⟨rfl, _⟩ := h; rfl
@@ -212,8 +212,8 @@ verdict `SuccessAll` of that result -/
 theorem caller_gets_outermost (fuel : Nat) (ps : List Policy) (r : Run) (res : PR) (r' : Run)
     (h : execute fuel ps r = some (res, r')) :
     ∃ r1, nestFrom fuel 0 ps r = some (res, r1) ∧ res.done = true ∧
-      r'.log = r1.log ++ [⟨if res.successAll then "ex.onSuccess" else "ex.onFailure", 0, r1.attempts, r1.execs⟩,
-                          ⟨"ex.onDone", 0, r1.attempts, r1.execs⟩] := by
+      r'.log = r1.log ++ [⟨if res.successAll then "ex.onSuccess" else "ex.onFailure", 0, r1.attempts, r1.execs, none⟩,
+                          ⟨"ex.onDone", 0, r1.attempts, r1.execs, none⟩] := by
   obtain ⟨r1, h1, hl⟩ := C16.one_done_one_verdict fuel ps r res r' h
   exact ⟨r1, by rw [← execute_is_nesting]; exact h1, layer_done fuel ps 0 r res r1 h1, hl⟩
 
